@@ -25,7 +25,7 @@ PJ(st) == LET ids == AscSeq(Dom(st)) IN
 
 AddVariants == IF Alpha = "full"
   THEN {<<1, "none", FALSE>>, <<1, "ok", FALSE>>, <<0, "ready", FALSE>>, <<1, "fail", FALSE>>, <<1, "none", TRUE>>,
-        <<2, "tag1", FALSE>>, <<0, "wasted", FALSE>>, <<0, "none", FALSE>>}
+        <<2, "tag1", FALSE>>, <<0, "wasted", FALSE>>, <<0, "none", FALSE>>, <<0, "broken", FALSE>>}
   ELSE {<<1, "none", FALSE>>, <<0, "ready", FALSE>>, <<1, "fail", FALSE>>, <<1, "none", TRUE>>, <<0, "none", FALSE>>}
 OwnedClassLists == IF Alpha = "full" THEN {<<>>, <<0>>, <<0, 1>>, <<1, 0>>} ELSE {<<0>>, <<1, 0>>}
 OwnedFaults == IF Alpha = "full" THEN {"none", "attr", "opt1", "opt2"} ELSE {"none", "opt2"}
